@@ -4,6 +4,9 @@
 //	tsig replay <vectors.ndjson>             Gen_Tsig "sign" vectors and MC_Tsig "chain" behaviours -> real API
 //	tsig record <alter> <out.ndjson> <n>     signs with the real code, alters every bit / field / parameter,
 //	                                         logs the real verdict of every verification for Trace_Tsig
+//	                                         then client connections (dns.Conn, Client.ExchangeWithConn): several signed
+//	                                         transactions per connection, several reads per transaction (cw / cr events);
+//	                                         `record conn' records those alone
 //	tsig record <server> <out.ndjson> <n>    a real dns.Server (in-memory TCP listener and datagram socket) with a key table:
 //	                                         several signed / wrongly keyed / unsigned requests back to back on one
 //	                                         connection, handlers answering with one message, with several messages
@@ -28,6 +31,7 @@ import (
 	"encoding/hex"
 	"fmt"
 	"hash"
+	"net"
 	"os"
 	"strconv"
 	"strings"
@@ -282,7 +286,7 @@ func replay(path string) {
 		case "sign":
 			p = hx.Catch(func() { signCase(v, msgs, &sum, seen) })
 		case "chain":
-			p = hx.Catch(func() { chainCase(v, &sum, seen) })
+			p = hx.Catch(func() { chainCase(v, i, &sum, seen) })
 		default:
 			hx.Die("unknown vector kind %q", v.Kind)
 		}
@@ -465,7 +469,12 @@ func has(fs []fault, kind string, pos int) bool {
 // Transfer.In (inAxfr owns the timers-only switch; Transfer.ReadMsg verifies every envelope against
 // the running MAC): envelope 1 opens with the SOA, envelope L ends with it.  Chains of one envelope
 // also go through Transfer.ReadMsg and dns.Conn.WriteMsg / ReadMsg directly.
-func chainCase(v *vec, sum *hx.Summary, seen map[string]bool) {
+//
+// The specification's verdicts do not depend on what the envelopes carry; the receiver's timers-only switch does
+// (inAxfr / inIxfr decide it per envelope from the records they see), so every behaviour is driven through the
+// transfer LAYOUTS a peer may legitimately choose (chainLayouts): AXFR and IXFR requests; the opening SOA sharing
+// its envelope with data or standing alone (the one-answer format of RFC 5936 2.2); the closing SOA likewise.
+func chainCase(v *vec, serial int, sum *hx.Summary, seen map[string]bool) {
 	seen[fmt.Sprintf("chain|%d|%v", v.L, v.Faults)] = true
 	secret := b64(secrets[1])
 	bad := b64(secrets[2])
@@ -473,6 +482,7 @@ func chainCase(v *vec, sum *hx.Summary, seen map[string]bool) {
 	soa := "example. 60 IN SOA ns.example. host.example. 7 3600 600 86400 60"
 
 	// the sender: signs L envelopes chained on the query's MAC, applies the faults of the behaviour
+	lay := chainLayout{}
 	send := func(query []byte, now int64) [][]byte {
 		qm := new(dns.Msg)
 		if err := qm.Unpack(query); err != nil || qm.IsTsig() == nil {
@@ -489,9 +499,15 @@ func chainCase(v *vec, sum *hx.Summary, seen map[string]bool) {
 			r.Answer = []dns.RR{rr(fmt.Sprintf("example. 60 IN TXT \"envelope %d\"", i))}
 			if i == 1 {
 				r.Answer = append([]dns.RR{rr(soa)}, r.Answer...)
+				if lay.firstAlone {
+					r.Answer = r.Answer[:1]
+				}
 			}
 			if i == v.L {
 				r.Answer = append(r.Answer, rr(soa))
+				if lay.lastAlone {
+					r.Answer = r.Answer[len(r.Answer)-1:]
+				}
 			}
 			key, sec, ts := chainKey, secret, now
 			if has(v.Faults, "unknownkey", i) {
@@ -576,7 +592,11 @@ func chainCase(v *vec, sum *hx.Summary, seen map[string]bool) {
 	}
 	query := func() *dns.Msg {
 		q := new(dns.Msg)
-		q.SetAxfr("example.")
+		if lay.ixfr {
+			q.SetIxfr("example.", 5, "ns.example.", "host.example.") // the client has serial 5, the chain carries serial 7
+		} else {
+			q.SetAxfr("example.")
+		}
 		q.Id = 0x3131
 		return q
 	}
@@ -587,7 +607,12 @@ func chainCase(v *vec, sum *hx.Summary, seen map[string]bool) {
 	for _, f := range v.Faults {
 		altersID = altersID || f.Kind == "alter_id"
 	}
-	if !altersID {
+	for _, lay = range chainLayouts(v, serial) {
+		if altersID {
+			break
+		}
+		via := "in" + lay.suffix()
+		seen[fmt.Sprintf("chain|%d|%v|%s", v.L, v.Faults, via)] = true
 		fc := pipe.New()
 		now := time.Now().Unix()
 		fc.OnWrite = func(c *pipe.Conn, p []byte) {
@@ -609,7 +634,7 @@ func chainCase(v *vec, sum *hx.Summary, seen map[string]bool) {
 		q.SetTsig(chainKey, chainAlg, 300, now)
 		ch, err := tr.In(q, "pipe")
 		if err != nil {
-			sum.Mis("tsig/chain:in:error", fmt.Sprintf("Transfer.In: %v", err), v)
+			sum.Mis("tsig/chain:"+via+":error", fmt.Sprintf("Transfer.In: %v", err), v)
 			return
 		}
 		var got []bool
@@ -628,8 +653,9 @@ func chainCase(v *vec, sum *hx.Summary, seen map[string]bool) {
 				hx.Die("Transfer.In did not finish on an in-memory connection (faults %v)", v.Faults)
 			}
 		}
-		compare("in", got, errs)
+		compare(via, got, errs)
 	}
+	lay = chainLayout{}
 	seq := false
 	for _, f := range v.Faults {
 		if f.Kind == "drop" || f.Kind == "dup" || f.Kind == "swap" {
@@ -673,6 +699,44 @@ func chainCase(v *vec, sum *hx.Summary, seen map[string]bool) {
 		ok := err == nil && m != nil && m.IsTsig() != nil
 		compare(via, []bool{ok}, []string{errText(err)})
 	}
+}
+
+// chainLayout: how the sender of a chain lays the zone out over the envelopes and which transfer was asked for.
+type chainLayout struct {
+	ixfr       bool // the request is an IXFR (inIxfr owns the timers-only switch), answered AXFR-style
+	firstAlone bool // envelope 1 carries the opening SOA and nothing else
+	lastAlone  bool // envelope L carries the closing SOA and nothing else
+}
+
+func (l chainLayout) suffix() string {
+	s := ""
+	if l.ixfr {
+		s += ":ixfr"
+	}
+	if l.firstAlone {
+		s += ":soa-alone-first"
+	}
+	if l.lastAlone {
+		s += ":soa-alone-last"
+	}
+	return s
+}
+
+// chainLayouts: behaviours with at most one fault go through every layout; those with two through the plain one and
+// one more in rotation (every layout meets every pair of faults within a few runs / in the thorough tier, which
+// runs them all).  A chain of one envelope has one layout per request type: SOA, data, SOA.
+func chainLayouts(v *vec, serial int) []chainLayout {
+	var all []chainLayout
+	for _, ixfr := range []bool{false, true} {
+		all = append(all, chainLayout{ixfr: ixfr})
+		if v.L >= 2 {
+			all = append(all, chainLayout{ixfr, true, false}, chainLayout{ixfr, false, true}, chainLayout{ixfr, true, true})
+		}
+	}
+	if len(v.Faults) <= 1 || hx.Thorough() || len(all) <= 2 {
+		return all
+	}
+	return []chainLayout{all[0], all[1+(serial+int(hx.Seed()))%(len(all)-1)]}
 }
 
 // keyClassAltered: the finding key of "the CLASS of the TSIG record is not covered" (RFC 8945 4.3.3), shared by
@@ -782,13 +846,20 @@ func record(which, out string, n int) {
 		recordServer(out, n)
 		return
 	}
-	if which != "alter" {
+	if which != "alter" && which != "conn" {
 		hx.Die("unknown recorder %q", which)
 	}
 	rnd := hx.Rand()
 	w := hx.NewWriter(out)
 	defer w.Close()
 	var sum hx.Summary
+	if which == "conn" { // the client-connection transactions alone (replay of a finding on a "cr" event)
+		idx := 0
+		recordConnSessions(w, &sum, &idx, n)
+		sum.Nontrivial = idx
+		sum.Print()
+		return
+	}
 	msgs := buildMsgs()
 	algs := []string{dns.HmacSHA1, dns.HmacSHA224, dns.HmacSHA256, dns.HmacSHA384, dns.HmacSHA512, "HMAC-SHA256."}
 	keys := []string{"key.example.", "k.", "Mixed.Case.Key."}
@@ -808,8 +879,23 @@ func record(which, out string, n int) {
 			rnd.Read(reqmac)
 		}
 		timers := rnd.Intn(3) == 0
-		now := uint64(time.Now().Unix())
-		tf := tsigFields{key: key, alg: alg, time: now, fudge: 300, macsize: -1, origid: m.Id, class: dns.ClassANY}
+		// the stub handed to the signer: explicit time and fudge, or the documented "fill in" values (Fudge 0: the signer
+		// picks one, TimeSigned 0: the signer stamps the message), or a window of a single second.  Whatever the signer
+		// picks, the specification reads it in the octets it emitted: the MAC must cover THOSE timers, the time signed must
+		// not lie before the moment the message was handed over, and the window is the one on the wire.
+		handed := uint64(time.Now().Unix())
+		stubTime, stubFudge := handed, uint16(300)
+		switch c % 7 {
+		case 1:
+			stubFudge = 0
+		case 3:
+			stubTime = 0
+		case 5:
+			stubFudge = 1
+		case 6:
+			stubTime, stubFudge = 0, 0
+		}
+		tf := tsigFields{key: key, alg: alg, macsize: -1, origid: m.Id, class: dns.ClassANY}
 		if rnd.Intn(3) == 0 {
 			tf.origid = m.Id + 77
 		}
@@ -817,12 +903,26 @@ func record(which, out string, n int) {
 			tf.err, tf.other = dns.RcodeBadTime, []byte{0, 0, 1, 2, 3, 4}
 		}
 		m.Extra = append(m.Extra, &dns.TSIG{Hdr: dns.RR_Header{Name: key, Rrtype: dns.TypeTSIG, Class: dns.ClassANY}, Algorithm: alg,
-			TimeSigned: now, Fudge: 300, OrigId: tf.origid, Error: tf.err, OtherLen: uint16(len(tf.other)), OtherData: hex.EncodeToString(tf.other)})
+			TimeSigned: stubTime, Fudge: stubFudge, OrigId: tf.origid, Error: tf.err, OtherLen: uint16(len(tf.other)), OtherData: hex.EncodeToString(tf.other)})
 		signed, machex, err := dns.TsigGenerate(m, b64(secrets[si]), hex.EncodeToString(reqmac), timers)
 		if err != nil {
 			hx.Die("TsigGenerate: %v", err)
 		}
 		tf.mac, _ = hex.DecodeString(machex)
+		// time and fudge as emitted (the alteration tool rebuilds the record around them; the clock values of the
+		// verifications below are taken relative to the time on the wire)
+		sm := new(dns.Msg)
+		if err := sm.Unpack(signed); err != nil || sm.IsTsig() == nil {
+			sum.Mis("tsig/generate:signed-octets", fmt.Sprintf("TsigGenerate output %x does not unpack to a message with a TSIG (%v)", signed, err), nil)
+			continue
+		}
+		tf.time, tf.fudge = sm.IsTsig().TimeSigned, sm.IsTsig().Fudge
+		now := tf.time
+		stubClass := fmt.Sprintf("stub time %s, fudge %s", map[bool]string{true: "0 (signer's clock)", false: "given"}[stubTime == 0],
+			map[uint16]string{0: "0 (signer's default)", 1: "1", 300: "300"}[stubFudge])
+		// the public route verifies at the wall clock: only where that is well inside the window on the wire
+		publicOK := tf.fudge >= 300 && tf.time+2 >= handed && tf.time <= handed+2
+		var handedNext []int
 		// body as emitted (the signer may have replaced the ID): everything before the TSIG record
 		blen := len(signed) - len(tf.build())
 		if blen != len(body) {
@@ -832,8 +932,11 @@ func record(which, out string, n int) {
 		table := map[string]int{key: si, strings.ToLower(key): si, "other.example.": (si + 1) % len(secrets)}
 
 		emit := func(what string, octets []byte, rq []byte, to bool, at uint64, via string, tab map[string]int) {
+			if via == "public" && !publicOK {
+				return
+			}
 			idx++
-			e := verifyEv{Ev: "verify", I: idx, What: what, Octets: hx.FromBytes(octets), Reqmac: hx.FromBytes(rq), Timers: to, Via: via, Secrets: tab}
+			e := verifyEv{Ev: "verify", I: idx, What: what, Octets: hx.FromBytes(octets), Reqmac: hx.FromBytes(rq), Timers: to, Via: via, Secrets: tab, Handed: handedNext}
 			buf := append([]byte(nil), octets...)
 			var got error
 			p := hx.Catch(func() {
@@ -870,11 +973,19 @@ func record(which, out string, n int) {
 		}
 
 		// the unaltered message, both routes
-		emit("base", signed, reqmac, timers, now, "hook", table)
-		emit("base", signed, reqmac, timers, now, "public", single)
-		// clock at and around the window edges (exact: hook only)
-		for _, d := range []int64{-301, -300, 300, 301} {
-			emit("now", signed, reqmac, timers, uint64(int64(now)+d), "hook", table)
+		base := "base"
+		if stubTime == 0 || stubFudge != 300 {
+			base = "base (" + stubClass + ")"
+		}
+		handedNext = limbs(handed)
+		emit(base, signed, reqmac, timers, now, "hook", table)
+		handedNext = nil
+		emit(base, signed, reqmac, timers, now, "public", single)
+		// clock at and around the edges of the window on the wire (exact: hook only)
+		for _, d := range []int64{-int64(tf.fudge) - 1, -int64(tf.fudge), int64(tf.fudge), int64(tf.fudge) + 1} {
+			if at := int64(now) + d; at >= 0 && at < 1<<48 {
+				emit("now", signed, reqmac, timers, uint64(at), "hook", table)
+			}
 		}
 		// every single-bit alteration of the complete signed octets: message, TSIG owner name, type, class, TTL,
 		// RDLENGTH and every RDATA field
@@ -1045,9 +1156,259 @@ func record(which, out string, n int) {
 		w.Emit(e)
 		sum.Evaluations++
 	}
+	recordConnSessions(w, &sum, &idx, 12*n)
 	sum.Nontrivial = idx
 	sum.Print()
 }
+
+// ---------------------------------------------------------------- record: transactions on client connections
+
+// dgramConn is the client end of an in-memory datagram exchange (a net.PacketConn, so dns.Conn takes its UDP paths):
+// datagrams queued with deliver are read one per Read; an empty queue is a timeout, never a wait.
+type dgramConn struct {
+	in      [][]byte
+	written [][]byte
+}
+
+type dgAddr struct{}
+
+func (dgAddr) Network() string { return "udp" }
+func (dgAddr) String() string  { return "dgram" }
+
+func (c *dgramConn) deliver(p []byte) { c.in = append(c.in, append([]byte(nil), p...)) }
+func (c *dgramConn) Read(p []byte) (int, error) {
+	if len(c.in) == 0 {
+		return 0, os.ErrDeadlineExceeded
+	}
+	n := copy(p, c.in[0])
+	c.in = c.in[1:]
+	return n, nil
+}
+func (c *dgramConn) ReadFrom(p []byte) (int, net.Addr, error) {
+	n, err := c.Read(p)
+	return n, dgAddr{}, err
+}
+func (c *dgramConn) Write(p []byte) (int, error) {
+	c.written = append(c.written, append([]byte(nil), p...))
+	return len(p), nil
+}
+func (c *dgramConn) WriteTo(p []byte, _ net.Addr) (int, error) { return c.Write(p) }
+func (c *dgramConn) Close() error                              { return nil }
+func (c *dgramConn) LocalAddr() net.Addr                       { return dgAddr{} }
+func (c *dgramConn) RemoteAddr() net.Addr                      { return dgAddr{} }
+func (c *dgramConn) SetDeadline(time.Time) error               { return nil }
+func (c *dgramConn) SetReadDeadline(time.Time) error           { return nil }
+func (c *dgramConn) SetWriteDeadline(time.Time) error          { return nil }
+
+// recordConnSessions: one dns.Conn value, one to three transactions on it, every transaction a signed request written
+// and one to four messages read -- what a resolver sees on a datagram socket (late answers to earlier requests, junk with
+// another ID, its own request reflected) or on a stream it keeps open.  Trace_Tsig carries the connection's state
+// (cw / cr events: Tsig!ConnWrite, ConnReadDigest); every read is judged against the request MAC of ITS transaction.
+//   conn      Conn.WriteMsg, then Conn.ReadMsg once per message (stream and datagram)
+//   exchange  Client.ExchangeWithConn on a datagram socket: it reads on past messages with another ID; the result is
+//             attributed to the datagram it belongs to (IDs are distinct), the skipped ones are not observations
+func recordConnSessions(w *hx.Writer, sum *hx.Summary, idx *int, n int) {
+	rnd := hx.Rand()
+	algs := []string{dns.HmacSHA1, dns.HmacSHA224, dns.HmacSHA256, dns.HmacSHA384, dns.HmacSHA512}
+	keys := []string{"key.example.", "k."}
+	ord := func(k int) string {
+		if k == 0 {
+			return "first"
+		}
+		return "later"
+	}
+	for c := 0; c < n; c++ {
+		key := keys[rnd.Intn(len(keys))]
+		si := rnd.Intn(len(secrets))
+		tab := map[string]int{key: si}
+		st := map[string]string{key: b64(secrets[si])}
+		stream := c%3 == 0
+		api := []string{"conn", "exchange"}[c%2]
+		if stream {
+			api = "conn"
+		}
+		fc := pipe.New()
+		dc := &dgramConn{}
+		var nc net.Conn = dc
+		transport := "datagram"
+		if stream {
+			nc, transport = fc, "stream"
+		}
+		co := &dns.Conn{Conn: nc, TsigSecret: st}
+		if rnd.Intn(2) == 0 {
+			co = &dns.Conn{Conn: nc, TsigProvider: dns.VerifTsigSecretProvider(st)}
+		}
+		w.Emit(verifyEv{Ev: "open", Octets: hx.B{}, Reqmac: hx.B{}, Now: limbs(0), Secrets: tab})
+		var prevQ, prevMAC []byte // the previous transaction's request and its MAC on the wire
+		ntx := 1 + rnd.Intn(3)
+		for tx := 0; tx < ntx; tx++ {
+			alg := algs[rnd.Intn(len(algs))]
+			now := time.Now().Unix()
+			q := new(dns.Msg)
+			q.SetQuestion(fmt.Sprintf("t%d.example.", tx), dns.TypeSOA)
+			q.Id = uint16(0x1000 + 16*rnd.Intn(0xE00)) // the messages fed use id .. id+15
+			q.SetTsig(key, alg, 300, now)
+			// what will be readable, decided before the request goes out (the exchange API reads inside the call)
+			nstray := rnd.Intn(4)
+			if tx == 0 && c%4 == 1 {
+				nstray = 1 + rnd.Intn(2)
+			}
+			type fed struct {
+				variant string
+				id      uint16
+			}
+			var plan []fed
+			for k := 0; k < nstray; k++ {
+				plan = append(plan, fed{[]string{"stray-unsigned", "stray-unsigned", "stray-reflected-request", "stray-answer-to-previous-request", "stray-wrong-secret"}[rnd.Intn(5)], q.Id + 1 + uint16(k)})
+			}
+			plan = append(plan, fed{[]string{"answer", "answer", "answer", "answer-wrong-secret", "answer-altered-mac", "answer-unsigned", "reflected-request", "answer-without-request-mac"}[rnd.Intn(8)], q.Id})
+			var fedOctets [][]byte
+			build := func(qo []byte) {
+				qm := new(dns.Msg)
+				if err := qm.Unpack(qo); err != nil || qm.IsTsig() == nil {
+					hx.Die("the written request carries no TSIG")
+				}
+				reqmac := qm.IsTsig().MAC
+				for _, f := range plan {
+					a := new(dns.Msg)
+					a.SetReply(qm)
+					a.Extra = nil
+					a.Id = f.id
+					a.Answer = []dns.RR{rr(fmt.Sprintf("%s 60 IN TXT \"%s\"", qm.Question[0].Name, f.variant))}
+					var o []byte
+					var err error
+					sign := func(sec []byte, rq string) {
+						a.SetTsig(key, alg, 300, now)
+						o, _, err = dns.TsigGenerate(a, b64(sec), rq, false)
+					}
+					switch f.variant {
+					case "stray-unsigned", "answer-unsigned":
+						o, err = a.Pack()
+					case "stray-reflected-request", "reflected-request":
+						o = append([]byte(nil), qo...)
+						binary.BigEndian.PutUint16(o, f.id) // the header ID is not covered (the original ID is)
+					case "stray-answer-to-previous-request":
+						if prevQ == nil {
+							o, err = a.Pack()
+						} else {
+							sign(secrets[si], hex.EncodeToString(prevMAC))
+						}
+					case "stray-wrong-secret", "answer-wrong-secret":
+						sign(secrets[(si+1)%len(secrets)], reqmac)
+					case "answer-without-request-mac":
+						sign(secrets[si], "")
+					default:
+						sign(secrets[si], reqmac)
+						if f.variant == "answer-altered-mac" {
+							flipBit(o, 8*(len(o)-7))
+						}
+					}
+					if err != nil {
+						hx.Die("building %s: %v", f.variant, err)
+					}
+					fedOctets = append(fedOctets, o)
+					if stream {
+						fc.Feed(pipe.Frame(o))
+					} else {
+						dc.deliver(o)
+					}
+				}
+			}
+			wire := func() []byte {
+				if stream {
+					if len(fc.Written) == 0 {
+						return nil
+					}
+					return fc.Written[len(fc.Written)-1][2:]
+				}
+				if len(dc.written) == 0 {
+					return nil
+				}
+				return dc.written[len(dc.written)-1]
+			}
+			emitW := func(qo []byte) {
+				*idx++
+				w.Emit(verifyEv{Ev: "cw", I: *idx, What: fmt.Sprintf("%s request of a %s connection", ord(tx), transport), Octets: hx.FromBytes(qo),
+					Reqmac: hx.B{}, Now: limbs(uint64(now)), Via: "conn-out-noted", Secrets: tab})
+				sum.Evaluations++
+			}
+			emitR := func(k int, got *dns.Msg, err error, pan string) {
+				qm := new(dns.Msg)
+				qm.Unpack(wire())
+				rq, _ := hex.DecodeString(qm.IsTsig().MAC)
+				*idx++
+				e := verifyEv{Ev: "cr", I: *idx, What: fmt.Sprintf("%s on a %s connection, %s transaction, %s read: %s", api, transport, ord(tx), ord(k), plan[k].variant),
+					Octets: hx.FromBytes(fedOctets[k]), Reqmac: hx.FromBytes(rq), Now: limbs(uint64(time.Now().Unix())), Via: "conn", Secrets: tab,
+					Got: errText(err), Signed: got != nil && got.IsTsig() != nil}
+				if pan != "" {
+					sum.Mis("tsig/verify:panic", "panic: "+pan, e)
+					e.Got = "panic: " + pan
+				}
+				w.Emit(e)
+				sum.Evaluations++
+			}
+			if api == "conn" {
+				if err := co.WriteMsg(q); err != nil || wire() == nil {
+					hx.Die("writing the request: %v", err)
+				}
+				qo := wire()
+				emitW(qo)
+				build(qo)
+				for k := range plan {
+					var got *dns.Msg
+					var err error
+					p := hx.Catch(func() { got, err = co.ReadMsg() })
+					emitR(k, got, err, p)
+				}
+				prevQ = qo
+			} else {
+				// the scripted peer answers when the request is written
+				before := len(dc.written)
+				var got *dns.Msg
+				var err error
+				hooked := &hookedConn{dgramConn: dc, onWrite: func(p []byte) { build(p) }}
+				co.Conn = hooked
+				cl := &dns.Client{TsigSecret: co.TsigSecret, TsigProvider: co.TsigProvider} // the exchange copies the client's TSIG configuration onto the connection
+			p := hx.Catch(func() { got, _, err = cl.ExchangeWithConn(q, co) })
+				if len(dc.written) != before+1 {
+					hx.Die("ExchangeWithConn wrote %d datagrams (%v)", len(dc.written)-before, err)
+				}
+				qo := wire()
+				emitW(qo)
+				if got != nil {
+					for k := range plan {
+						if plan[k].id == got.Id {
+							emitR(k, got, err, p)
+						}
+					}
+				} else if p != "" {
+					sum.Mis("tsig/verify:panic", "panic: "+p, nil)
+				}
+				dc.in = nil // whatever the call left unread belongs to this transaction
+				prevQ = qo
+			}
+			qm := new(dns.Msg)
+			qm.Unpack(prevQ)
+			prevMAC, _ = hex.DecodeString(qm.IsTsig().MAC)
+			if stream {
+				fc.Feed(nil)
+			}
+		}
+	}
+}
+
+// hookedConn lets the scripted peer of a datagram exchange see the request the moment it is written.
+type hookedConn struct {
+	*dgramConn
+	onWrite func([]byte)
+}
+
+func (h *hookedConn) Write(p []byte) (int, error) {
+	n, err := h.dgramConn.Write(p)
+	h.onWrite(p)
+	return n, err
+}
+func (h *hookedConn) WriteTo(p []byte, _ net.Addr) (int, error) { return h.Write(p) }
 
 // ---------------------------------------------------------------- judge (second pass)
 
@@ -1082,9 +1443,9 @@ func judge(tracePath, specPath string) {
 	var sum hx.Summary
 	spec := map[int]*specLine{}
 	hx.ReadNDJSON(specPath, func(i int, s *specLine) { spec[s.I] = s })
-	nacc, nundet, ntsigoff, nnoted := 0, 0, 0, 0
+	nacc, nundet, ntsigoff, nnoted, nchained := 0, 0, 0, 0, 0
 	hx.ReadNDJSON(tracePath, func(i int, e *verifyEv) {
-		if e.Ev != "verify" && e.Ev != "env" {
+		if e.Ev != "verify" && e.Ev != "env" && e.Ev != "cr" && e.Ev != "cw" {
 			return
 		}
 		s := spec[e.I]
@@ -1092,6 +1453,17 @@ func judge(tracePath, specPath string) {
 			hx.Die("no specification line for event %d", e.I)
 		}
 		sum.Evaluations++
+		if e.Ev == "cw" {
+			// a request written by a dns.Conn: does its MAC cover what RFC 8945 5.1 says a request's MAC covers (no request
+			// MAC)?  Outside the statement for the later requests of a reused connection object (see Tsig.tla): counted only.
+			if s.St == "ok" {
+				alg := strings.ToLower(nameText(s.Alg))
+				if si, known := e.Secrets[nameText(s.Key)]; known && !hmac.Equal(stdMac(alg, secrets[si], s.Digest.Bytes()), s.Mac.Bytes()) {
+					nchained++
+				}
+			}
+			return
+		}
 		real := e.Got == ""
 		if e.Via == "server" || e.Via == "server-tsig-off" || e.Via == "conn" { // ResponseWriter.TsigStatus() is nil for an unsigned request too: verified = signed and nil
 			real = real && e.Signed
@@ -1177,6 +1549,9 @@ func judge(tracePath, specPath string) {
 	if nnoted > 0 {
 		sum.Note("unsigned_tsig_error_replies_recorded", nnoted)
 	}
+	if nchained > 0 {
+		sum.Note("requests_on_a_reused_conn_whose_mac_covers_an_earlier_request_mac_recorded", nchained)
+	}
 	if ntsigoff > 0 {
 		sum.Note("signed_requests_with_nil_status_on_server_without_tsig_configuration", ntsigoff)
 	}
@@ -1250,6 +1625,8 @@ func recordServer(out string, n int) {
 	}
 	var mu sync.Mutex
 	status := map[uint16]seen{} // by request ID (unique per recorder run)
+	handedAt := map[uint16][]uint64{} // transfers: the clock when each envelope was handed to Transfer.Out
+	lateDone, lateID := false, -1
 	answers := func(q *dns.Msg) int { // messages the handler writes for a verified request
 		switch {
 		case q.Question[0].Qtype == dns.TypeAXFR:
@@ -1299,22 +1676,60 @@ func recordServer(out string, n int) {
 		// signed iff the request verified, or carry the TSIG error (Transfer.Out itself signs verified requests only)
 		switch {
 		case req.Question[0].Qtype == dns.TypeAXFR:
+			// Transfer.Out stamps every envelope itself: the clock is noted when each envelope is handed over, and ONE
+			// verified transfer per run hands its last envelope over 2.1 s after the others (a large zone, a slow producer):
+			// the time signed of an envelope is the time of ITS signing, not that of the start of the transfer
+			mu.Lock()
+			late := verified && !lateDone
+			if late {
+				lateDone = true
+				lateID = int(req.Id)
+			}
+			mu.Unlock()
 			ch := make(chan *dns.Envelope)
 			done := make(chan error, 1)
 			go func() { done <- new(dns.Transfer).Out(rw, req, ch) }()
 			soa := rr("example. 60 IN SOA ns.example. host.example. 9 3600 600 86400 60")
-			ch <- &dns.Envelope{RR: []dns.RR{soa, rr("a.example. 60 IN A 192.0.2.1")}}
-			ch <- &dns.Envelope{RR: []dns.RR{rr("b.example. 60 IN A 192.0.2.2")}}
-			ch <- &dns.Envelope{RR: []dns.RR{rr("c.example. 60 IN A 192.0.2.3"), soa}}
+			var outErr error
+			ended := false
+			hand := func(e *dns.Envelope) { // noted before the envelope can reach the wire
+				if ended {
+					return
+				}
+				mu.Lock()
+				handedAt[req.Id] = append(handedAt[req.Id], uint64(time.Now().Unix()))
+				mu.Unlock()
+				select {
+				case ch <- e:
+				case outErr = <-done: // Out gave up (it could not sign or write): nothing more will be sent
+					ended = true
+				}
+			}
+			hand(&dns.Envelope{RR: []dns.RR{soa, rr("a.example. 60 IN A 192.0.2.1")}})
+			hand(&dns.Envelope{RR: []dns.RR{rr("b.example. 60 IN A 192.0.2.2")}})
+			if late {
+				time.Sleep(2100 * time.Millisecond)
+			}
+			hand(&dns.Envelope{RR: []dns.RR{rr("c.example. 60 IN A 192.0.2.3"), soa}})
 			close(ch)
-			<-done
+			if !ended {
+				outErr = <-done
+			}
+			if outErr != nil {
+				rw.Close() // the client sees the end of the stream at once instead of waiting for envelopes that will not come
+			}
 		case strings.HasPrefix(req.Question[0].Name, "multi"):
 			for i := 0; i < answers(req); i++ { // what Transfer.Out does, by hand
-				rw.WriteMsg(reply(i))
+				if err := rw.WriteMsg(reply(i)); err != nil {
+					rw.Close() // (as below)
+					break
+				}
 				rw.TsigTimersOnly(true)
 			}
 		default:
-			rw.WriteMsg(reply(0))
+			if err := rw.WriteMsg(reply(0)); err != nil {
+				rw.Close() // nothing will come: the client sees the end of the stream at once (datagram clients wait their 20 s)
+			}
 		}
 	})
 
@@ -1461,10 +1876,20 @@ func recordServer(out string, n int) {
 			via2 = "server-out-noted"
 		}
 		if via2 != "" {
+			mu.Lock()
+			times, wasLate := handedAt[q.Id], lateID == int(q.Id)
+			mu.Unlock()
 			for k, p := range msgs {
 				idx++
-				w.Emit(verifyEv{Ev: "env", I: idx, What: fmt.Sprintf("response %d of %d, %s", k+1, want, desc), Octets: hx.FromBytes(p), Reqmac: hx.B{},
-					Now: limbs(uint64(time.Now().Unix())), Via: via2, Secrets: tab})
+				ee := verifyEv{Ev: "env", I: idx, What: fmt.Sprintf("response %d of %d, %s", k+1, want, desc), Octets: hx.FromBytes(p), Reqmac: hx.B{},
+					Now: limbs(uint64(time.Now().Unix())), Via: via2, Secrets: tab}
+				if kind == "axfr" && via2 == "server-out" && k < len(times) {
+					ee.Handed = limbs(times[k])
+					if wasLate {
+						ee.What += " (last envelope handed to Transfer.Out 2.1 s after the others)"
+					}
+				}
+				w.Emit(ee)
 			}
 		}
 		if len(msgs) != want {
